@@ -35,7 +35,7 @@ def gen_cases(tier, seed):
     cases = []
     for i in range(n):
         rng = env.case_rng(ID, i, seed)
-        pool = ['none', 'none', 'none', 'l2', 'none', 's2', 'none'][i % 7]
+        pool = ['none', 'l2', 'none', 'none', 's2', 'none'][i % 6]     # 6 and 5 (priors) are coprime: every pair occurs
         pspec = workloads.gen_problem(rng, family=FAMILIES[i % len(FAMILIES)],
                                       prior=workloads.PRIORS[i % len(workloads.PRIORS)],
                                       blobs=workloads.BLOBS[(i + i // 5) % len(workloads.BLOBS)],
